@@ -32,9 +32,9 @@ package tcp
 //@   observe DecodeLayers, pktFilter, pktFlags, String, Put
 //@   entry row undecodable: [call DecodeLayers(s.parser, data, _) as (e)] when e != nil && ret == e -> exit
 //@   entry row otherframe:  [call DecodeLayers(s.parser, data, _) as (e)] when e == nil && !tcpchain(s.rcvDecoded) && ret == nil -> exit
-//@   entry row filtered:    [call DecodeLayers(s.parser, data, _) as (e) ; call pktFilter(bind_t) as (ok)] when e == nil && tcpchain(s.rcvDecoded) && !ok && ret == nil -> exit
+//@   entry row filtered:    [call DecodeLayers(s.parser, data, _) as (e) ; call pktFilter(bind_t) as (ok)] when e == nil && tcpchain(s.rcvDecoded) && !ok && ret == nil && t == addr(s.rcvTCP) -> exit
 //@   entry row record:      [call DecodeLayers(s.parser, data, _) as (e) ; call pktFilter(bind_t) as (ok) ; call String(s.rcvIP.SrcIP) as (ips) ; call pktFlags(bind_t2) as (fl) ; call Put(s.results, bind_x)]
-//@                             when e == nil && tcpchain(s.rcvDecoded) && ok && ret == nil && isptr(x, ScanResult) && fresh(asptr(x, ScanResult))
+//@                             when e == nil && tcpchain(s.rcvDecoded) && ok && ret == nil && t == addr(s.rcvTCP) && t2 == addr(s.rcvTCP) && isptr(x, ScanResult) && fresh(asptr(x, ScanResult))
 //@                               && asptr(x, ScanResult).IP == ips && asptr(x, ScanResult).Port == s.rcvTCP.SrcPort && asptr(x, ScanResult).Flags == fl && asptr(x, ScanResult).ScanType == s.scanType -> exit
 
 // ---------------------------------------------------------------------------------------------
